@@ -177,8 +177,13 @@ pub fn run_case(out: &mut Out, rng: &mut Rng, thorough: bool, case_no: u64) {
     let mut fp = format!("{}|{}|{}", c::net_name(network), thr, mode as u8);
     let mut pushed = 0;
     let mut forks = 0;
+    let mut paused = false;
     for _ in 0..steps {
-        let r = rng.below(100);
+        let mut r = rng.below(100);
+        if paused && r < 62 {
+            // like the heartbeat, never add blocks while an ingestion is in progress
+            r = 70;
+        }
         if r < 62 {
             let parent = pick_parent(rng, &case);
             if case.alive.iter().any(|j| case.world.nodes[*j].parent == Some(parent)) {
@@ -200,6 +205,10 @@ pub fn run_case(out: &mut Out, rng: &mut Rng, thorough: bool, case_no: u64) {
             let obs = c::push_direct(block);
             out.emit(&format!("c push {}", text), &obs);
             out.count(&format!("push:{}", obs));
+            if obs == "trap" {
+                out.count("case-cut-after-trap");
+                return;
+            }
             pushed += 1;
             fp.push_str(&format!("p{}", parent));
             sync_alive(&mut case);
@@ -208,6 +217,13 @@ pub fn run_case(out: &mut Out, rng: &mut Rng, thorough: bool, case_no: u64) {
             let obs = c::ingest(budget);
             out.emit(&format!("c ingest {}", budget), &obs);
             out.count(&format!("ingest:{}", obs));
+            paused = obs == "paused";
+            if obs == "trap" {
+                // a native panic leaves partial effects behind (no rollback): the rest of the
+                // native run corresponds to no IC execution, so the case ends here
+                out.count("case-cut-after-trap");
+                return;
+            }
             fp.push_str(&format!("i{}", budget));
             sync_alive(&mut case);
         } else {
